@@ -30,9 +30,9 @@ def kind? : Sexp → Option Kind
   | .atom "name" => some .name | .atom "builtin" => some .builtin | .atom "hoisted" => some .hoisted | _ => none
 
 def binding? (idx : Nat) : Sexp → Option Binding
-  | .list [.atom "B", k, name, vlen, allow, reserved, home, isMod, .list refs] => do
+  | .list [.atom "B", k, name, vlen, allow, reserved, home, isMod, .list encl, .list refs] => do
     pure { idx := idx, kind := ← kind? k, name := ← optStr? name, valueLen := ← nat? vlen, allow := ← bool? allow,
-           reserved := ← optStr? reserved, home := ← nat? home, isModule := ← bool? isMod, refs := ← refs.mapM ref? }
+           reserved := ← optStr? reserved, home := ← nat? home, isModule := ← bool? isMod, enclosing := ← encl.mapM nat?, refs := ← refs.mapM ref? }
   | _ => none
 
 /-- `rename.assign <prefixGlobals> (reservedGlobals..) (bindings..)` → `old>new` per binding in input order -/
